@@ -164,6 +164,13 @@ func cmdRun(args []string) int {
 		results = append(results, r)
 		all = append(all, r.Obls...)
 	}
+	// contracts that no longer fit the code: what they promised cannot be established
+	for _, c := range eng.misfits {
+		if !hasProp(c, o.prop) {
+			continue
+		}
+		results = append(results, &FuncResult{Contract: c, VC: eng.newVC(nil, c.FullKey()), Err: "the contract no longer type-checks against the code (signature or names changed): its obligations cannot be established"})
+	}
 	tGen := time.Since(t0) - tLoad
 	cfg := solveCfg{tier: o.tier, workdir: work, quickT: 4, fullT: 30, jobs: o.jobs}
 	if o.tier == "thorough" {
